@@ -6,7 +6,7 @@ from ref.hashes import Drbg
 
 ID = "C05"
 LEVEL = "exploration"
-CONFIGS = {"quick": ["san", "mx_i64", "mx_i128s_nv", "mx_noasm"],
+CONFIGS = {"quick": ["san", "mx_i64", "mx_i128s_nv", "mx_noasm", "mx_i64_nv"],
            "thorough": ["san", "san_nv", "mx_i64", "mx_i64_nv", "mx_i128s", "mx_i128s_nv", "mx_noasm", "mx_noasm_nv", "mx_clang", "mx_w2"]}
 RULE = ("internal field / scalar / int128 / group / scalar-multiplication / hash routines exposed by the shim, driven with edge-biased 256-bit operands "
         "(0, 1, p-1, p, n-1, n, 2^k, 2^k-1, limb-boundary patterns, lambda-split boundaries), every magnitude 1..32 each routine permits (two "
